@@ -152,7 +152,7 @@ pub fn gen(prop: &str, tier: &str, seed: u64, out: &mut Vec<String>) {
                         if !t && r.chance(2, 3) {
                             continue;
                         }
-                        let fl = *r.pick(&["sync", "syncw", "fsm", "growsync", "growsync", "growfsm"]);
+                        let fl = *r.pick(&["sync", "syncw", "fsm", "growsync", "growsync", "growfsm", "reusesync"]);
                         out.push(format!("obpre {} {} {n} {m} {bs} {fl}", r.pick(&pat), r.below(50)));
                     }
                 }
